@@ -12,11 +12,42 @@ type Tape struct {
 	state  uint64
 	pos    int
 	isRepl bool
+	side   *Tape
+	seed   uint64
 }
 
 // NewTape returns a search-mode tape for a seed.
 func NewTape(seed uint64) *Tape {
-	return &Tape{state: seed*0x9E3779B97F4A7C15 + 0x1234567}
+	return &Tape{state: seed*0x9E3779B97F4A7C15 + 0x1234567, seed: seed}
+}
+
+// Side returns the run's SIDE tape: a second, independent choice stream for configuration knobs that were added to
+// scenarios later (size thresholds of the engines, ...). It is recorded in the replay file separately ("side_tape"),
+// so tapes recorded before a knob existed still replay (a missing side tape reads 0 = every knob at its default),
+// and the shrinker can try "all knobs at default" in one step.
+func (t *Tape) Side() *Tape {
+	if t.side == nil {
+		if t.isRepl {
+			t.side = ReplayTape(nil)
+		} else {
+			t.side = NewTape(t.seed ^ 0x5EED51DE5EED51DE)
+		}
+	}
+	return t.side
+}
+
+// WithSide attaches recorded side-tape values to a replay tape.
+func (t *Tape) WithSide(vals []uint64) *Tape {
+	t.side = ReplayTape(vals)
+	return t
+}
+
+// SideRecorded returns the side-tape values handed out so far (nil when the side tape was never used).
+func (t *Tape) SideRecorded() []uint64 {
+	if t.side == nil {
+		return nil
+	}
+	return t.side.Recorded()
 }
 
 // ReplayTape returns a replay-mode tape.
